@@ -15,7 +15,7 @@ pub fn def() -> CheckDef {
         bounds_quick: "(1) compose / spider fusion / coequalizer / universal map with solver-chosen component numbering and scatter filler: <=4 nodes before gluing; (2) layer, layered_operations, eval, is_acyclic, is_monogamous, degrees, HypergraphArrow with solver-chosen argsort tie order and sparse-bincount key order: W<=3, X<=2, S,T<=2..3; (3) functor and optic application with solver-chosen argsort, key order and filler, canonical component numbering: W<=2, X<=1",
         bounds_thorough: "(1) <=5 nodes before gluing; (2) W<=3, X<=2, S,T<=3 and three-operation profiles; (3) W<=2, X<=1..2",
         jobs,
-        budget_s: (170, 3000),
+        budget_s: (170, 1500),
     }
 }
 
@@ -31,7 +31,7 @@ fn adv(tier: Tier, cc: bool, sort: bool, keys: bool, filler: bool) -> Cfg {
 pub fn jobs(tier: Tier, seed: u64) -> Vec<Job> {
     let per_job = Duration::from_secs(match tier {
         Tier::Quick => 60,
-        Tier::Thorough => 1200,
+        Tier::Thorough => 600,
     });
     let mut groups: Vec<Vec<Job>> = vec![];
     let rename = |mut j: Job, tag: &str| {
